@@ -67,7 +67,7 @@ def conclude(mod, ctx, merged, wall):
         "rule": getattr(mod, "RULE", ""),
         "samples": samples[:6] or ["(no sample recorded)"],
         "exhaustive": bool(getattr(mod, "EXHAUSTIVE", True)) and not ctx.notes.get("cap_hit"),
-        "bounds": ctx.notes.get("bounds", {}),
+        "bounds": dict(ctx.notes.get("bounds", {}), **({"context_routes": ctx.notes["context_routes"]} if "context_routes" in ctx.notes else {})),
         "per_backend": merged.per_backend,
         "tasks": merged.tasks,
         "counters": merged.counters,
